@@ -209,7 +209,7 @@ class Function:
         await asyncio.sleep(float(duration))
 
     @classmethod
-    async def event_fire(cls, event_type, **kwargs):
+    async def event_fire(cls, event_type, /, **kwargs):
         """Implement event.fire()."""
         curr_task = asyncio.current_task()
         if "context" in kwargs and isinstance(kwargs["context"], Context):
@@ -328,7 +328,7 @@ class Function:
         return cls.hass.services.has_service(domain, name)
 
     @classmethod
-    async def service_call(cls, domain, name, **kwargs):
+    async def service_call(cls, domain, name, /, **kwargs):
         """Implement service.call()."""
         curr_task = asyncio.current_task()
         hass_args = {}
@@ -518,7 +518,7 @@ class Function:
             cls.task2cb[task] = {"ctx": ast_ctx, "cb": {}}
 
     @classmethod
-    def task_add_done_callback(cls, task, ast_ctx, callback, *args, **kwargs):
+    def task_add_done_callback(cls, task, ast_ctx, callback, /, *args, **kwargs):
         """Add a done callback to the given task."""
         if ast_ctx is None:
             ast_ctx = cls.task2cb[task]["ctx"]
